@@ -163,7 +163,14 @@ class TreeGen:
         out = []
         for _ in range(r.choice([0, 1, 1, 2, 2, 3, 4]) if depth < self.depth else r.choice([1, 2, 3, 4])):
             dis = r.random() < 0.1
-            if depth > 0 and r.random() < 0.4:
+            if depth > 1 and r.random() < 0.06:
+                # an enabled attribute-free scope whose only child is a DISABLED scope or definition: the renderer may
+                # spell it `!a.b {` / `!a.b = 1` (the `!` belongs to the innermost object)
+                inner_dis = {"k": "s", "name": r.choice(NAMES), "dis": True, "attrs": self.attrs_for(False),
+                             "objs": self.objs(depth - 2)} if r.random() < 0.6 else \
+                            {"k": "d", "name": r.choice(NAMES), "dis": True, "words": self.words(), "attrs": self.attrs_for(True)}
+                out.append({"k": "s", "name": r.choice(NAMES), "dis": False, "attrs": [], "objs": [inner_dis]})
+            elif depth > 0 and r.random() < 0.4:
                 out.append({"k": "s", "name": r.choice(NAMES), "dis": dis, "attrs": self.attrs_for(False),
                             "objs": self.objs(depth - 1)})
             else:
